@@ -739,7 +739,7 @@ func (s *Search) Run(start ssa.Instruction) (bool, []string) {
 			if subsumed(seenAt[bk], facts) {
 				continue
 			}
-			if len(seenAt[bk]) < 256 {
+			if len(seenAt[bk]) < 4096 {
 				seenAt[bk] = append(seenAt[bk], facts)
 			}
 			queue = append(queue, &state{b: succ, idx: 0, facts: facts, prev: cur, armed: armed})
